@@ -118,7 +118,12 @@ type FakeDocker struct {
 	mu    sync.Mutex
 	table map[string]Behaviour
 	Calls map[string]int
-	srv   *httptest.Server
+	// Hook, if set, runs DURING every inspect request (before it is answered) with the 1-based number of the request
+	// since the last Set and the container id asked for: the environment moving while the collector waits.
+	Hook func(k int, id string)
+	N    int
+	Log  []string
+	srv  *httptest.Server
 }
 
 func NewFakeDocker() *FakeDocker {
@@ -135,6 +140,25 @@ func (f *FakeDocker) Set(t map[string]Behaviour) {
 	defer f.mu.Unlock()
 	f.table = t
 	f.Calls = map[string]int{}
+	f.N = 0
+	f.Log = nil
+	f.Hook = nil
+}
+
+// SetHook installs the during-inspect hook (nil = none) and restarts the request counter.
+func (f *FakeDocker) SetHook(h func(k int, id string)) {
+	f.mu.Lock()
+	defer f.mu.Unlock()
+	f.Hook = h
+	f.N = 0
+	f.Log = nil
+}
+
+// Requests returns the container ids of the inspect requests since the counter was restarted.
+func (f *FakeDocker) Requests() []string {
+	f.mu.Lock()
+	defer f.mu.Unlock()
+	return append([]string(nil), f.Log...)
 }
 
 func (f *FakeDocker) serve(w http.ResponseWriter, r *http.Request) {
@@ -148,7 +172,13 @@ func (f *FakeDocker) serve(w http.ResponseWriter, r *http.Request) {
 	f.mu.Lock()
 	b, ok := f.table[id]
 	f.Calls[id]++
+	f.N++
+	k, hook := f.N, f.Hook
+	f.Log = append(f.Log, id)
 	f.mu.Unlock()
+	if hook != nil {
+		hook(k, id)
+	}
 	if !ok {
 		b = "notfound"
 	}
@@ -186,6 +216,9 @@ type FakeCRI struct {
 	criapi.UnimplementedRuntimeServiceServer
 	mu     sync.Mutex
 	table  map[string]Behaviour
+	Hook   func(k int, id string) // as FakeDocker.Hook
+	N      int
+	Log    []string
 	Socket string
 	gs     *grpc.Server
 }
@@ -208,6 +241,19 @@ func (f *FakeCRI) Set(t map[string]Behaviour) {
 	f.mu.Lock()
 	defer f.mu.Unlock()
 	f.table = t
+	f.N, f.Log, f.Hook = 0, nil, nil
+}
+
+func (f *FakeCRI) SetHook(h func(k int, id string)) {
+	f.mu.Lock()
+	defer f.mu.Unlock()
+	f.Hook, f.N, f.Log = h, 0, nil
+}
+
+func (f *FakeCRI) Requests() []string {
+	f.mu.Lock()
+	defer f.mu.Unlock()
+	return append([]string(nil), f.Log...)
 }
 
 // PodName is the pod a not-ready sandbox of container id belongs to (namespace "ns1").
@@ -221,7 +267,13 @@ func PodName(id string, b Behaviour) string {
 func (f *FakeCRI) PodSandboxStatus(ctx context.Context, req *criapi.PodSandboxStatusRequest) (*criapi.PodSandboxStatusResponse, error) {
 	f.mu.Lock()
 	b, ok := f.table[req.PodSandboxId]
+	f.N++
+	k, hook := f.N, f.Hook
+	f.Log = append(f.Log, req.PodSandboxId)
 	f.mu.Unlock()
+	if hook != nil {
+		hook(k, req.PodSandboxId)
+	}
 	if !ok {
 		b = "notfound"
 	}
